@@ -22,8 +22,15 @@ SPEC DECISIONS (RFC 8613 leaves the sender a choice; S is instantiated with what
        the Observe value of a notification is not transported: `unprotect ∘ protect` returns the
        message with that substitution (`normalize`).
  D14.4 Partial IV = minimal-length big-endian sequence number, 0 ↦ one zero byte (§5.2/§6.1).
- D14.5 a response carries a Partial IV (fresh nonce) iff the caller asks for it or it carries Observe
-       (libcoap never re-uses the request nonce for a notification); otherwise the request nonce.
+ D14.5 a response carries a Partial IV (fresh nonce) iff the caller asks for it, or it carries Observe, or it
+       answers an Observe request, i.e. a request that carries an Observe option — precisely: its binding is
+       marked `observe`, D14.16 (`ownPiv`).  §5.2 / §8.3 step 3
+       let a response use the nonce of its request AT MOST ONCE ("the server MUST NOT use the same nonce for
+       more than one response"); the binding of an Observe request outlives a response (D14.16: notifications,
+       error responses, a response sent by the application next to the notifications), so the nonce of an
+       Observe request is never used for a response (§4.1.3.5.2: only the first notification may omit the
+       Partial IV, and libcoap gives it one too).  Otherwise: the request nonce, and the binding is consumed by
+       that response (D14.16), so it is used once.
        A response never carries kid or kid context (§6.1: "usually omitted").
  D14.6 requests carry the kid context whenever the context has an ID Context (§5.1 allows omission).
  D14.7 a piggybacked (ACK) 2.xx response is sent as a separate CON response with a fresh message id
@@ -278,7 +285,8 @@ def protectRequest (cipher : Bytes → Bytes → Bytes) (c : Ctx) (m : Msg) (seq
   some ({ m with code := if hasObserve m.opts then 5 else 2, opts := withOscore (outerOpts m.opts) ov, payload := ct },
         ⟨c.sid, piv, nce⟩)
 
-/-- §8.3.  `seq = some n`: fresh Partial IV `n` (D14.5); `sepMid`: D14.7. -/
+/-- §8.3, both forms the RFC allows.  `seq = some n`: own Partial IV `n`, fresh nonce; `seq = none`: no Partial IV, the
+nonce of the request (which form is used when: D14.5, `protectResponseFor`); `sepMid`: D14.7. -/
 def protectResponse (cipher : Bytes → Bytes → Bytes) (c : Ctx) (b : Binding) (m : Msg) (seq : Option Nat)
     (sepMid : Option Nat) : Option Msg :=
   if m.opts.any (fun o => o.1 = optOscore) then none else
@@ -292,6 +300,17 @@ def protectResponse (cipher : Bytes → Bytes → Bytes) (c : Ctx) (b : Binding)
                 mid := (match sepMid with | some x => if sep then x else m.mid | none => m.mid),
                 code := if hasObserve m.opts then 69 else 68,
                 opts := withOscore (outerOpts m.opts) ov, payload := ct }
+
+/-- D14.5: does a response carry its own Partial IV (and is protected with a fresh nonce)?  `ask`: the caller asks for
+one; `reqObserve`: the request it answers carried an Observe option — the binding of such a request is not consumed by
+this response, so its nonce is not used. -/
+def ownPiv (ask reqObserve : Bool) (m : Msg) : Bool := ask || hasObserve m.opts || reqObserve
+
+/-- §8.3 with D14.5 applied: `seq` is the Sender Sequence Number of the server's context; it is used (and with it a fresh
+nonce) iff the response carries its own Partial IV, else the nonce of the request is. -/
+def protectResponseFor (cipher : Bytes → Bytes → Bytes) (c : Ctx) (b : Binding) (reqObserve : Bool) (m : Msg) (ask : Bool)
+    (seq : Nat) (sepMid : Option Nat) : Option Msg :=
+  protectResponse cipher c b m (if ownPiv ask reqObserve m then some seq else none) sepMid
 
 inductive Verdict where
   | plain                      -- no OSCORE option: not an OSCORE message
